@@ -33,7 +33,8 @@ def gen_spec(rng: random.Random, small=False) -> dict:
         "obs": ({"strats": rng.randint(0, 3), "when": rng.choice(["collect_metrics", "time_step", "time_step__prepare", "time_step__cleanup"]),
                  "concat": rng.random() < 0.5, "defaults": rng.choice([[], [], ["sex"], ["sex", "color"]]),
                  "values": rng.choice([0, 0, 2, 3, 5])} if rng.random() < 0.7 else None),
-        "order": [rng.randint(0, 4) for _ in range(rng.randint(0, 3))],
+        "extras": ({"pafs": [rng.choice([0.0, 0.25, 0.5, 0.75]) for _ in range(rng.randint(0, 3))]} if rng.random() < 0.5 else None),
+        "order": [rng.randint(0, 5) for _ in range(rng.randint(0, 3))],
     }
     if spec["obs"]:
         spec["obs"]["defaults"] = spec["obs"]["defaults"][: spec["obs"]["strats"]]
